@@ -39,7 +39,7 @@ def is_request_source(node, fn):
     return False
 
 
-def run(ctx):
+def _run_base(ctx):
     global _CTX
     _CTX = ctx
     repo, cg = ctx.repo, ctx.cg
@@ -451,3 +451,100 @@ def _wiring(ctx, fn, fid, callee, argnames, result_key, base_key):
         why = 'body = {%s: the object diffed as base, %s: the library result, unmodified}' % (base_key, result_key) if ok else \
             ('result is post-processed or not the library result' if not res_ok else 'the base returned is not the object that was diffed')
     ctx.inst('R20.5', fid, repo.norm(dd) if dd is not None else repo.norm(data), ok, why, fin[-1])
+
+
+def last_attr_name(c):
+    return c.func.attr if isinstance(c.func, ast.Attribute) else (c.func.id if isinstance(c.func, ast.Name) else None)
+
+
+SHARED_EXEMPT = {'merge_args': 'the parsed merge arguments are the same constant argv for every request (first-request cache; see R12.5)'}
+
+
+def run(ctx):
+    """R20.9: requests do not leave state behind for later requests.
+
+    `self.settings` (the tornado application settings) and `self.params` (the dict given to every handler at start-up) are
+    shared by all requests.  A handler method that stores into them -- directly or through a container it fetched from them
+    -- makes the answer to a later request depend on an earlier one (e.g. notebooks cached from the first read of a file
+    that has since changed).  One named exemption: the cached constant merge arguments."""
+    ctx.rule('R20.10', 'a file that is not JSON is treated as an empty notebook only if it is empty: the re-raise is guarded by a pure emptiness test of what was read', floor=1)
+    ctx.rule('R20.9', 'handler methods store nothing in state shared between requests (application settings, start-up params), except the constant merge arguments', floor=8)
+    _run_base(ctx)
+    repo, cg = ctx.repo, ctx.cg
+    mods = ['nbdime.webapp.nbdimeserver'] + (['nbdime.webapp.nb_server_extension'] if ctx.tier == 'thorough' else [])
+    SHARED = ('self.settings', 'self.params', 'self.application.settings', 'self.application')
+    n = 0
+    for cid, c in sorted(repo.classes.items()):
+        if cid.split(':')[0] not in mods or not cg.is_handler_class(cid):
+            continue
+        for m in c.body:
+            if not isinstance(m, FuncTypes) or m.name in ('initialize', '__init__'):
+                continue
+            n += 1
+            fid = repo.fid_of(m)
+            defs = local_defs(m)
+
+            def shared_root(e, seen=()):
+                """Does e denote a shared container (or something fetched from one)?  returns key/description or None"""
+                d = dotted(e)
+                if d in SHARED:
+                    return d
+                if isinstance(e, ast.Subscript):
+                    r = shared_root(e.value, seen)
+                    return ('%s[%s]' % (r, ast.unparse(e.slice))) if r else None
+                if isinstance(e, ast.Call) and isinstance(e.func, ast.Attribute) and e.func.attr in ('get', 'setdefault'):
+                    r = shared_root(e.func.value, seen)
+                    return ('%s.%s(%s)' % (r, e.func.attr, ast.unparse(e.args[0]) if e.args else '')) if r else None
+                if isinstance(e, ast.Name) and e.id not in seen:
+                    for v, k, st in defs.get(e.id, []):
+                        if k == 'assign':
+                            r = shared_root(v, seen + (e.id,))
+                            if r:
+                                return r
+                return None
+            bad = []
+            for a in walk_no_nested(m):
+                tgts = []
+                if isinstance(a, ast.Assign):
+                    tgts = a.targets
+                elif isinstance(a, ast.AugAssign):
+                    tgts = [a.target]
+                elif isinstance(a, ast.Delete):
+                    tgts = a.targets
+                for t in tgts:
+                    if isinstance(t, ast.Subscript):
+                        r = shared_root(t.value)
+                        key = const_val(t.slice)
+                        if r and not (r == 'self.settings' and key in SHARED_EXEMPT):
+                            bad.append((a, '%s[%s]' % (r, ast.unparse(t.slice))))
+                    elif isinstance(t, ast.Attribute) and dotted(t.value) in SHARED:
+                        if t.attr == 'exit_code' and any(last_attr_name(c) == 'stop' for c in calls_in(m)):
+                            continue    # named exemption: the close handler hands the exit status to the launcher and stops the loop in the same method
+                        bad.append((a, dotted(t)))
+                if isinstance(a, ast.Call) and isinstance(a.func, ast.Attribute) and a.func.attr in facts.MUTATORS:
+                    r = shared_root(a.func.value)
+                    if r and not (a.func.attr == 'setdefault' and a.args and const_val(a.args[0]) in SHARED_EXEMPT):
+                        bad.append((a, '%s.%s(...)' % (r, a.func.attr)))
+            ctx.inst('R20.9', fid, 'stores into shared state: %s' % ([b[1] for b in bad] or 'none'), not bad,
+                     'the method leaves nothing behind for later requests' if not bad else
+                     '%s is shared by all requests: what this request stores there (%s) is served to later requests, which are then no longer answered '
+                     'as a fresh server would answer them' % (bad[0][1].split('[')[0].split('.setdefault')[0], repo.norm(bad[0][0])[:80]), bad[0][0] if bad else m)
+    if n == 0:
+        raise AnalysisError('no handler methods found')
+
+    from ..util import empty_file_fallback_sites, pure_emptiness_test
+    rn = repo.func('nbdime.webapp.nbdimeserver:NbdimeHandler.read_notebook')
+    hs = empty_file_fallback_sites(rn)
+    if not hs:
+        raise AnalysisError('NbdimeHandler.read_notebook: no NotJSONError handler found')
+    for h, sites in hs:
+        if not sites:
+            falls = not (h.body and isinstance(h.body[-1], ast.Raise))
+            ctx.inst('R20.10', 'nbdime.webapp.nbdimeserver:NbdimeHandler.read_notebook', 'except NotJSONError without a content test', not falls,
+                     'always re-raised' if not falls else 'every non-JSON file is accepted as an empty notebook', h)
+        for x in sites:
+            ok = pure_emptiness_test(x.test)
+            ctx.inst('R20.10', 'nbdime.webapp.nbdimeserver:NbdimeHandler.read_notebook', 'if %s: raise' % repo.norm(x.test), ok,
+                     'only a file with no content at all falls back to an empty notebook' if ok else
+                     'the test transforms what was read before deciding: files that are not empty (e.g. whitespace followed by garbage) are answered with 200 '
+                     'and an empty notebook instead of an error status', x)
